@@ -84,9 +84,24 @@ def mk_field(base, name):
     return ("field", base, name)
 
 
+def _same_variant(a, b):
+    if a == b:
+        return True
+    if not isinstance(a, str) or not isinstance(b, str):
+        return False
+    sa, sb = a.split("::"), b.split("::")
+    if sa[-1] == sb[-1] and sa[-1] in ("Some", "None", "Ok", "Err"):
+        return True
+    return sa[-2:] == sb[-2:]
+
+
 def mk_proj(base, variant, idx):
-    if base[0] == "ctor" and base[1] == variant and isinstance(idx, int) and idx < len(base[2]):
+    if base[0] == "ctor" and _same_variant(base[1], variant) and isinstance(idx, int) and idx < len(base[2]):
         return base[2][idx]
+    if base[0] == "ctor" and not _same_variant(base[1], variant):
+        return NEVER                          # projecting a variant out of a value built with another one
+    if base[0] == "join":
+        return mk_join([mk_proj(x, variant, idx) for x in base[1]])
     if base[0] == "struct" and base[1] == variant:
         for f, t in base[2]:
             if f == idx:
@@ -136,6 +151,48 @@ def calls_in(t, *suffixes):
             if any(s[1] == x or s[1].endswith("::" + x) or s[1].endswith(x) for x in suffixes):
                 out.append(s)
     return out
+
+
+def replace(t, old, new, memo=None):
+    """Replace every occurrence of subterm `old` by `new` (re-simplifying projections)."""
+    if memo is None:
+        memo = {}
+    if not isinstance(t, tuple) or not t:
+        return t
+    if t == old:
+        return new
+    if t in memo:
+        return memo[t]
+    r = tuple(replace(x, old, new, memo) if isinstance(x, tuple) else x for x in t)
+    if r and r[0] == "field" and len(r) == 3:
+        r = mk_field(r[1], r[2])
+    elif r and r[0] == "proj" and len(r) == 4:
+        r = mk_proj(r[1], r[2], r[3])
+    elif r and r[0] == "tproj" and len(r) == 3:
+        r = mk_tproj(r[1], r[2])
+    memo[t] = r
+    return r
+
+
+def place_path(n):
+    """Textual access path of a place expression (`eval_context.cache`), looking through borrows / derefs."""
+    path = []
+    while isinstance(n, dict):
+        k = n.get("k")
+        if k == "path" and n.get("res") == "local":
+            return ".".join([n["name"]] + list(reversed(path)))
+        if k == "field":
+            path.append(n["name"])
+            n = n["e"]
+        elif k in ("ref", "cast") or (k == "un" and n.get("op") == "*"):
+            n = n["e"]
+        elif k == "index":
+            n = n["e"]
+        elif k == "mcall" and n.get("name") in IDENTITY_METHODS | {"get_mut", "unwrap", "iter_mut", "as_mut", "get", "iter"}:
+            n = n["recv"]
+        else:
+            return None
+    return None
 
 
 def subst(t, mapping, memo=None):
@@ -243,13 +300,18 @@ class Summary:
         self.ret = NEVER
         self.returns = []     # (term, pc, may, must, node, kind)   kind: "tail" | "return" | "try"
         self.sites = []
+        self.deep_sites = []  # sites of inlined callees (arguments substituted, path conditions prefixed)
         self.loops = {}       # loop_id -> {"vars": {name: (init, update)}, "node": .., "exits": [..]}
         self.closures = {}
         self.env_end = None
         self.unresolved = []  # constructs the evaluator could not interpret
 
-    def sites_to(self, *suffixes):
-        return [s for s in self.sites if s.kind in ("call", "mcall") and s.is_call_to(*suffixes)]
+    def sites_to(self, *suffixes, deep=False):
+        pool = self.sites + self.deep_sites if deep else self.sites
+        return [s for s in pool if s.kind in ("call", "mcall") and s.is_call_to(*suffixes)]
+
+    def all_sites(self):
+        return self.sites + self.deep_sites
 
 
 class State:
@@ -690,6 +752,28 @@ class Evaluator:
             self.st.env = saved_env
         return v
 
+    def _import_sites(self, cs, mapping):
+        """Whole-pipeline view: the sites of an inlined callee, re-expressed in the caller's terms."""
+        if len(self.summ.deep_sites) > 20000:
+            return
+        memo = {}
+        pc0 = tuple(self.pc)
+        for s in cs.sites + cs.deep_sites:
+            pc = []
+            for c in s.pc:
+                if c[0] == "if":
+                    pc.append(("if", subst(c[1], mapping, memo)) + tuple(c[2:]))
+                elif c[0] == "match":
+                    pc.append(("match", subst(c[1], mapping, memo)) + tuple(c[2:]))
+                else:
+                    pc.append(c)
+            self.summ.deep_sites.append(Site(
+                node=s.node, fn=s.fn, kind=s.kind, callee=s.callee, inst=s.inst, name=s.name,
+                args=[subst(a, mapping, memo) for a in (s.args or [])], argnodes=s.argnodes, pc=pc0 + tuple(pc),
+                may=self.st.may | (s.may or frozenset()), must=self.st.must | (s.must or frozenset()),
+                loops=tuple(l[0] for l in self.loop_stack) + tuple(s.loops or ()), term=subst(s.term, mapping, memo) if isinstance(s.term, tuple) else s.term,
+                ordinal=s.ordinal, ty=s.ty, closure=s.closure))
+
     def local_callee(self, def_path):
         return self.prog.resolve_local(self.fn.crate, def_path)
 
@@ -718,10 +802,16 @@ class Evaluator:
                         if i < len(args):
                             mapping[nm] = args[i]
                     term = subst(cs.ret, mapping)
+                    self._import_sites(cs, mapping)
             else:
                 term = ("call", target.path, tuple(args))
         if term is None:
             term = ("call", callee, tuple(args))
+            if isinstance(callee, str) and callee.rsplit("::", 1)[-1] in ("box_assume_init_into_vec_unsafe", "into_vec"):
+                # `vec![a, b]` lowering: the elements are the array literal inside
+                arrs = [x for x in subterms(term) if x[0] == "array"]
+                if arrs:
+                    term = ("vec", arrs[0][1])
         site.term = term
         # effects through &mut
         for i, an in enumerate(argnodes):
@@ -800,7 +890,7 @@ class Evaluator:
                 nparams = len(fa_s["params"])
                 if name in ("fold",) and nparams == 2:
                     cargs = [("unk", "acc"), ("elem", recv)]
-                elif "Option" in rty or "Result" in rty:
+                elif rty.lstrip("&").replace("mut ", "").startswith(("std::option::Option", "std::result::Result")):
                     cargs = [("payload", recv)] * nparams
                 else:
                     cargs = [("elem", recv)] * nparams
@@ -813,7 +903,7 @@ class Evaluator:
             if fa_s.get("k") == "path" and fa_s.get("res") == "def" and fa_s.get("dk") in ("Fn", "AssocFn"):
                 site = self._site(node=n, kind="mcall", callee=d, inst=n.get("inst"), name=name,
                                   args=[recv] + other + [("def", fa_s["def"])], argnodes=argnodes, ty=n.get("ty"))
-                arg = ("payload", recv) if ("Option" in rty or "Result" in rty) else ("elem", recv)
+                arg = ("payload", recv) if rty.lstrip("&").replace("mut ", "").startswith(("std::option::Option", "std::result::Result")) else ("elem", recv)
                 body = self.do_call(fa_s, fa_s["def"], fa_s.get("inst"), [arg], [None], "call")
                 t = ("hof", name, recv, body, tuple(other))
                 site.term = t
@@ -1136,6 +1226,8 @@ def pt(t, depth=0):
         return _sh(t[1]) + "{" + ", ".join(f"{a}: {pt(b, d)}" for a, b in t[2]) + "}"
     if k in ("tuple", "array"):
         return ("(" if k == "tuple" else "[") + ", ".join(pt(a, d) for a in t[1]) + (")" if k == "tuple" else "]")
+    if k == "vec":
+        return "vec![" + ", ".join(pt(a, d) for a in t[1]) + "]"
     if k == "field":
         return pt(t[1], d) + "." + t[2]
     if k == "proj":
